@@ -169,14 +169,16 @@ bool Parser::parseStatement(StatementSyntax*& stmt, StatementContext stmtCtx)
                     PSY_ASSERT_3(stmt->asExpressionStatement(),
                                      return false,
                                      "invalid expression-statement");
-                    stmt->asExpressionStatement()->expr_->extKwTkIdx_ = extKwTkIdx;
+                    if (stmt->asExpressionStatement()->expr_)
+                        stmt->asExpressionStatement()->expr_->extKwTkIdx_ = extKwTkIdx;
                     break;
 
                 case SyntaxKind::DeclarationStatement:
                     PSY_ASSERT_3(stmt->asDeclarationStatement(),
                                      return false,
                                      "invalid expression-statement");
-                    stmt->asDeclarationStatement()->decl_->extKwTkIdx_ = extKwTkIdx;
+                    if (stmt->asDeclarationStatement()->decl_)
+                        stmt->asDeclarationStatement()->decl_->extKwTkIdx_ = extKwTkIdx;
                     break;
 
                 default:
